@@ -569,7 +569,7 @@ Lemma str_step_set_params : forall st s b st' o, Str st -> step_set_params st s 
 Proof.
   intros st s b st' o H. unfold step_set_params.
   destruct (negb (is_kind st KSpace s)); intros E; inversion E; subst; [exact H|].
-  apply str_upd_cont. destruct (c_params (get_cont st s)); [apply str_discard_items|]; exact H.
+  apply str_upd_cont. apply str_discard_items. exact H.
 Qed.
 
 Lemma eval_fields : forall fuel st c x st1 z deps, eval fuel st c x = EOk st1 z deps ->
